@@ -196,6 +196,16 @@ func init() {
 			g := hs.Fn("g", hs.TInt, hs.Blk(hs.Bin("+", hs.V("m1"), hs.V("m2")), hs.LetS("m1", hs.CallN("h", hs.V("a"))), hs.LetS("m2", hs.CallN("h", hs.V("m1")))), intP("a"))
 			return mainOnly([]*hs.Func{h, g}, hs.LetS("x", hs.CallN("g", hs.I(1))), hs.LetS("y", hs.CallN("g", hs.V("x"))), hs.Println(hs.V("x"), hs.V("y")))
 		}},
+		callCase{"match-without-default-whose-arms-all-diverge", func() *hs.Program {
+			ret := func(v int64) hs.Expr { return &hs.BlockExpr{B: hs.Blk(nil, &hs.Return{X: hs.I(v)})} }
+			pick := hs.Fn("pick", hs.TInt, hs.Blk(hs.I(0),
+				hs.ES(&hs.Match{X: hs.V("n"), Arms: []hs.MatchArm{{Lits: []hs.Expr{hs.I(1)}, Body: ret(10)}, {Lits: []hs.Expr{hs.I(2)}, Body: ret(20)}}}),
+				hs.Println(hs.S("fell through"), hs.V("n"))), intP("n"))
+			loop := &hs.For{Var: "i", Iter: &hs.RangeLit{From: hs.I(0), To: hs.I(3)}, Body: hs.Blk(nil,
+				hs.ES(&hs.Match{X: hs.V("i"), Arms: []hs.MatchArm{{Lits: []hs.Expr{hs.I(0)}, Body: &hs.BlockExpr{B: hs.Blk(nil, &hs.Continue{})}}}}),
+				hs.Println(hs.S("body"), hs.V("i")))}
+			return mainOnly([]*hs.Func{pick}, hs.Println(hs.CallN("pick", hs.I(1)), hs.CallN("pick", hs.I(2)), hs.CallN("pick", hs.I(3))), loop, hs.Println(hs.S("end")))
+		}},
 		callCase{"null-function-as-statement-and-value", func() *hs.Program {
 			f := hs.Fn("side", nil, hs.Blk(nil, hs.Println(hs.S("side"), hs.V("a"))), intP("a"))
 			return mainOnly([]*hs.Func{f}, hs.ES(hs.CallN("side", hs.I(1))), hs.ES(hs.CallN("side", hs.I(2))), hs.LetS("k", hs.I(3)), hs.Println(hs.V("k")))
